@@ -129,7 +129,46 @@ func (w *World) verifyFunction(fn *ssa.Function, ct *Contract, props []string) (
 	}
 	cx := c.obligeNamed("cover.exit", "cover", w.Fset.Position(fn.Pos()), "some return is reachable", exitGuard, tTrue)
 	cx.Cover = true
+	if ct.SplitReturns {
+		// large functions: each postcondition is proved at every return separately, on that return's own state
+		// (no merged exit state, so each query only carries one path's heap)
+		for k, r := range ex.rets {
+			renv := ex.contractEnv(r.state, ex.entry)
+			renv.locals = true
+			for kk, v := range ex.params {
+				renv.vars[kk] = v
+			}
+			for i := 0; i < res.Len() && i < len(r.results); i++ {
+				renv.vars[fmt.Sprintf("result%d", i)] = r.results[i]
+				if n := res.At(i).Name(); n != "" && n != "_" {
+					renv.vars[n] = r.results[i]
+				}
+				if res.Len() == 1 {
+					renv.vars["result"] = r.results[i]
+				}
+			}
+			for i, en := range ct.Ensures {
+				if en.Assumed {
+					continue
+				}
+				g := ex.evalBool(renv, en)
+				nm := fmt.Sprintf("post.%d", i+1)
+				if en.Name != "" {
+					nm = "post." + en.Name
+				}
+				o := c.obligeNamed(fmt.Sprintf("%s@r%d", nm, k+1), "post", ex.pos(r.pos), "postcondition at this return: "+en.Text, r.guard, g)
+				o.ModelVars = mvars
+				o.Clause = en
+			}
+		}
+	}
 	for i, en := range ct.Ensures {
+		if ct.SplitReturns {
+			if en.Assumed {
+				c.trust(fmt.Sprintf("%s: postcondition %q is an assumption about a dependency (assumed-ensures), not proved from the body", name, en.Text))
+			}
+			continue
+		}
 		if en.Assumed {
 			c.trust(fmt.Sprintf("%s: postcondition %q is an assumption about a dependency (assumed-ensures), not proved from the body", name, en.Text))
 			continue
